@@ -45,6 +45,8 @@ def run(ctx):
             blob = blob[:-1] + b"\x00"
         cs.append((hx(g.gen_key(rng)), "-", g.show_comp([(0xC3, b"\x02")], blob, ln, False)))
     ctx.exhaustive[f"payload_lengths_1..{L}"] = True
+    for comps in g.threshold_comps(rng, enc=False):
+        cs.append((hx(g.gen_key(rng)), "-", comps))
     nontriv = lambda line, res: not line.endswith(" -")
     w = ctx.correspond([f"bf3.writetext {k} {c} {comps}" for k, c, comps in cs], "writetext", nontriv)
     wp = ctx.correspond([f"bf3.writepath {k} {c} {comps}" for k, c, comps in cs[: n // 2]], "writepath", nontriv)
